@@ -10,3 +10,15 @@ RULE = ('Each run delivers a text through the reader seam and parses it strictly
         'documents with 0-3 faults, corpus excerpts and alphabet strings. Non-trivial: a fault fired or '
         'alphabet string; distinct by digest of (delivered text, skip_envs).')
 setup, teardown, gen, run, minimize, sample = make(PROPERTY)
+
+
+def vacuity(agg):
+    c = agg['counters']
+    runs = agg['runs']
+    rec = c.get('mode.recover', 0)
+    if rec and c.get('c07.b.evaluated', 0) < 0.5 * rec:
+        return ('clause (b) was evaluated for only %d alternatives in %d recovery runs: the intact documents are not '
+                'admitted (do not parse strictly / round-trip)' % (c.get('c07.b.evaluated', 0), rec))
+    if runs and c.get('c07.c.evaluated', 0) < 0.2 * runs:
+        return 'clause (c) was evaluated in only %d of %d runs' % (c.get('c07.c.evaluated', 0), runs)
+    return None
